@@ -57,6 +57,11 @@ CLAIMS = {
     'C16': ('struct format arity/width evaluation, symbolic cursor arithmetic on decoder paths, encoder/decoder guard agreement, constant evaluation of bit layouts',
             'format arity and widths, length classes 126/127 <-> 2/8 bytes on both sides, contiguous reads and exact remainder, None-vs-zero tests, bit layout, masking key written/read under the same condition and used for masking, accept-token formula',
             'round trip over all payloads, byte equality with an independent encoder'),
+    'C17': ('sibling cross-check of the two drivers (thread-per-connection loop, shared selector loop) and of the work construction sites; who-may-observe table for the mode selection; exactly-one-dispatch on CFG paths of the acceptor',
+            'STRUCTURAL CLAUSE ONLY: every mode builds the work object the same way with the same effective constructor keywords, both drivers call the same Work protocol methods and publish the same events, '
+            'read-ready descriptors are the first and write-ready descriptors the second argument of handle_events in both drivers, per-connection code does not branch on the execution mode (or on a field that only exists in one mode), '
+            'the acceptor hands every accepted connection to exactly one executor and starts the in-process executor exactly when it queues work for it',
+            'the behavioural property itself: equality of client/upstream transcripts and of per-connection event order across modes; scheduling, fairness and timing differences between a thread, an in-process loop and a worker process; the operating system\'s descriptor passing'),
     'C18': ('single-consumer who-may-call, fan-out loop shape on CFG paths, no-mutation-while-iterating, guarded subscripts',
             'single FIFO consumer, one send per subscriber per event with the event unchanged, broken channel does not stop the fan-out, eviction after the loop, subscribe/unsubscribe windows, guarded subscripts',
             'cross-process ordering of multiprocessing.Queue with several publishers'),
@@ -68,9 +73,7 @@ CLAIMS = {
             'the bound on the reaping delay under load, clock behaviour'),
 }
 
-NOT_APPLICABLE = {
-    'C17': 'mode equivalence is a differential statement about byte/event transcripts under three schedulers and process layouts; nothing in the shape of the code bounds those transcripts, and the only structural fragments (same work construction and the same five lifecycle calls in all drivers) are necessary conditions of C10/C20 and are checked there. No runtime differential test is substituted (DESIGN.md section 5).',
-}
+NOT_APPLICABLE: dict = {}
 
 PENDING = 'static rule set designed (DESIGN.md section 4) but not implemented yet; nothing is claimed until the check exists'
 
